@@ -225,6 +225,19 @@ def run(ck, F, E):
                 a1 = strip_expr(dd.expr(c.args[1]))
                 if a0[0] == "const" and a0[1].get("int") == das and a1 == ("param", 1):
                     ok = True
+        if not ok:
+            # `repeat(DEFAULT_ARRAY_SIZE).take(dimensions).collect()`
+            reps = [c for c in dd.calls() if c.callee.split("::")[-1] in ("repeat", "repeat_n")]
+            takes = [c for c in dd.calls() if c.callee.split("::")[-1] == "take"]
+            for r_ in reps:
+                a0 = strip_expr(dd.expr(r_.args[0]))
+                if a0[0] == "const" and a0[1].get("int") == das:
+                    if r_.callee.split("::")[-1] == "repeat_n" and len(r_.args) > 1 and strip_expr(dd.expr(r_.args[1])) == ("param", 1):
+                        ok = True
+                    for t_ in takes:
+                        if len(t_.args) > 1 and strip_expr(dd.expr(t_.args[1])) == ("param", 1) and \
+                                any(len(x) > 3 and x[3] is r_ for x in expr_calls(dd.expr(t_.args[0]))):
+                            ok = True
         ck.require(ok, "C03:DEFAULT:array-shape", "defaults", "implicit arrays get max index DEFAULT_ARRAY_SIZE in each of `dimensions` axes",
                    "implicit arrays are no longer vec![DEFAULT_ARRAY_SIZE; dimensions]", dd.span)
     for fn in ("Arrays::get_value_at_index", "Arrays::set_value_at_index"):
@@ -244,6 +257,12 @@ def run(ck, F, E):
         for b, i, pl, rv, sp in nb.assigns():
             if rv["k"] == "binop" and rv["op"] == "AddWithOverflow" and rv["b"].get("int") == 1:
                 ok = True
+        if not ok:
+            from lib import with_closures
+            for cb in with_closures(F, nb)[1:]:      # `.map(|max_index| max_index.checked_add(1))`
+                for c in cb.calls():
+                    if c.callee.endswith("checked_add") and strip_expr(cb.expr(c.args[1]))[0] == "const" and strip_expr(cb.expr(c.args[1]))[1].get("int") == 1:
+                        ok = True
         ck.require(ok, "C03:DEFAULT:size=max+1", "defaults", "dimension size = max index + 1", "DimArray::new no longer sizes an axis as max index + 1", nb.span)
 
     # ---- (6) sequencing
